@@ -188,14 +188,14 @@ Definition is_function (l : leaf) : bool := match l with LPowT _ | LDeriv _ _ | 
 (* ---- AppliedUndef branch ------------------------------------------------------------------- *)
 Definition sift_shape (fs : list leaf) : option (nat * K * K * K * K) :=
   match fs with
-  | [LUndef v a' b'; LDelta _ a b] => Some (v, a', b', a, b)
-  | [LDelta _ a b; LUndef v a' b'] => Some (v, a', b', a, b)
+  | [LUndef v a' b'; LDelta O a b] => Some (v, a', b', a, b)
+  | [LDelta O a b; LUndef v a' b'] => Some (v, a', b', a, b)
   | _ => None
   end.
 Definition undef_model (zic : bool) (fs : list leaf) : option (K -> K) * list ev :=
   match sift_shape fs with
   | Some (v, a', b', a, b) =>
-      (* Mul(DiracDelta(..), v(..)): sifting; the order of the derivative of the delta is NOT looked at *)
+      (* Mul(DiracDelta(a t + b), v(..)) with a plain delta (len(args) == 1): sifting; derivatives of delta fall through *)
       let t0 := - b / a in
       if neg t0 then (Some (fun _ => 0), []) else (Some (f_sift F 1 (Fv v (a' * t0 + b')) a b), [])
   | None =>
@@ -907,8 +907,7 @@ Proof. destruct HF. intros Hn Hu Hd. unfold den1 in Hd. rewrite Hn in Hd.
   destruct (sift_shape fs) as [[[[[v a'] b'] a] b]|] eqn:Es.
   { assert (Hden : sift_sig v a' b' a b = Some y).
     { unfold sift_shape in Es. destruct fs as [|l0 [|l1 [|l2 fs]]]; try discriminate; destruct l0; try discriminate;
-        destruct l1; try discriminate; inversion Es; subst; cbn [den_named] in Ey;
-        (destruct k; [exact Ey | discriminate]) || exact Ey. }
+        destruct l1; try discriminate; try (destruct k; try discriminate); inversion Es; subst; cbn [den_named] in Ey; exact Ey. }
     clear Ey Es. unfold sift_sig in Hden.
     destruct (isr a) eqn:Ra; [|discriminate]. destruct (isr b) eqn:Rb; [|discriminate]. destruct (pos a) eqn:Ha; [|discriminate].
     cbn [andb] in Hden. pose proof (pos_nz a Ha) as Hz. destruct (neg (- b / a)) eqn:Hng.
